@@ -463,6 +463,11 @@ func (w *verifWorld) newContainer(maxMilli int64) *verifContainer {
 	id := "c" + string(rune('0'+k))
 	pod := &verifPod{name: "p" + id, namespace: verifNamespaces[verifChoice("namespace", verifParam("namespaces", len(verifNamespaces)))],
 		qos: verifQoS[verifChoice("qos", verifParam("qosClasses", len(verifQoS)))], annotations: map[string]string{}}
+	if verifParam("cpuPreserve", 0) != 0 && verifChoice("cpuPreserve", 2) == 1 {
+		// the container opts out of CPU pinning (it still has a CPU request)
+		pod.annotations[cache.PreserveCpuKey] = "true"
+		verifCover("cpu-preserve-annotated")
+	}
 	if verifParam("hideHT", 0) != 0 && verifChoice("hideHT", 2) == 1 {
 		// the container asks to run on one thread per core
 		pod.annotations[hideHyperthreadsKey] = "true"
